@@ -25,6 +25,8 @@ import (
 //
 //	sib-send    Send on A suspended; sibling B (same Framing value) sends two records
 //	sib-recv    Recv on A suspended; sibling B receives two records
+//	sib-hold    A has received a record and not yet asked for the next (the record is
+//	            valid until then); sibling B receives two records; A's record is compared after that
 //	dup-recv    Recv on ch suspended; ch itself sends two records
 //	dup-send    Send on ch suspended; ch itself receives two records
 //
@@ -137,12 +139,12 @@ func c11xSizes(e vt.Env) (paused, other []int) {
 	if e.Thorough() {
 		return []int{3, 200, 5000, 70000, 1 << 20, 5<<20 + 3}, []int{2, 4100, 66000, 5<<20 + 17}
 	}
-	return []int{3, 5000, 70000, 5<<20 + 3}, []int{2, 6000, 5<<20 + 17}
+	return []int{3, 900, 5000, 70000, 5<<20 + 3}, []int{2, 1500, 6000, 5<<20 + 17}
 }
 
 func c11xCases(e vt.Env, yield func(vt.Case) bool) bool {
 	for _, fr := range c11framings() {
-		for _, kind := range []string{"sib-send", "sib-recv", "dup-recv", "dup-send"} {
+		for _, kind := range []string{"sib-send", "sib-recv", "sib-hold", "dup-recv", "dup-send"} {
 			fr, kind := fr, kind
 			id := "X/" + kind + "/" + fr.name
 			if !yield(vt.Case{ID: id, Run: func(c *vt.Ctx) { c11x(c, e, fr, kind, id) }}) {
@@ -256,6 +258,25 @@ func c11x(c *vt.Ctx, e vt.Env, fr c11fr, kind, id string) {
 								c11checkEOF(c, what+" (B)", b)
 							}
 						})
+					if !c.Failed() && c11checkRecv(c, what+" (A)", a, 1, p2) {
+						c11checkEOF(c, what+" (A)", a)
+					}
+				case "sib-hold":
+					g.armed = false
+					a := fr.f(&c11gatedReader{data: encP}, c11nopWC{})
+					b := fr.f(&c11gatedReader{data: encO}, c11nopWC{})
+					held, err := a.Recv()
+					if err != nil {
+						c.Failf("%s (A): Recv #0 returned error %v", what, err)
+					}
+					if c11checkRecv(c, what+" (B)", b, 0, o1) && c11checkRecv(c, what+" (B)", b, 1, o2) {
+						c11checkEOF(c, what+" (B)", b)
+					}
+					if !bytes.Equal(held, p1) {
+						c.Failf("%s (A): the record A received, still valid because A has not called Recv again, reads %s after the sibling channel received its records; it was %s (first difference at offset %d)",
+							what, c11showBytes(held), c11showBytes(p1), c11firstDiff(held, p1))
+					}
+					hit = true
 					if !c.Failed() && c11checkRecv(c, what+" (A)", a, 1, p2) {
 						c11checkEOF(c, what+" (A)", a)
 					}
